@@ -222,7 +222,36 @@ pub fn gen_de_fault(g: &mut Gen) {
     g.count("de-fault-every-read-call");
 }
 
+/// faults inside the skipping entry points of the text reader: `skip_unquoted_value` refills while it scans the
+/// blanks between a header and its `{`, `skip_container` while it scans the body; a fault at each of those
+/// read calls (one-byte and three-byte reads, small buffer) must surface as an I/O error
+fn gen_skip_fault(g: &mut Gen) {
+    let docs: [&[u8]; 4] = [
+        b"a=rgb                         { 1 2 3 } b=c",
+        b"a=hsv\n\t\t\t\n\t\t\t  \n\n\n\n\n\n\n\n\n{ 1 2 3 }\nb=c",
+        b"a=b c=LIST ; ; ; ; ; ; ; ; ; ;{ x=y \"}\" } d=e",
+        b"k=hdr                                   v=w",
+    ];
+    for d in docs.iter() {
+        for (cap, step) in [(16usize, 1usize), (16, 3), (24, 5)] {
+            let calls = d.len() / step + 2;
+            for j in 0..calls {
+                for f in ["F", "P"] {
+                    let mut s: Vec<String> = (0..j).map(|_| step.to_string()).collect();
+                    s.push(f.to_string());
+                    s.push(format!("R{}", step));
+                    let sched = s.join(",");
+                    for k in 1..=3 { g.emit(format!("tskipu {} {} {} {}", cap, sched, hex(d), k)); }
+                    g.emit(format!("tskip {} {} {} 1", cap, sched, hex(d)));
+                }
+            }
+        }
+    }
+    g.count("skip-fault-every-call");
+}
+
 pub fn gen(g: &mut Gen) {
+    gen_skip_fault(g);
     super::c07::gen_fault(g);
     super::c08::gen_fault(g);
     gen_de_fault(g);
